@@ -36,8 +36,15 @@ Definition fd_min (d : fd) : option Z :=
 Definition fd_max (d : fd) : option Z :=
   match d with Interval _ hi => Some hi | Sparse l => hd_error (rev l) end.
 
-(* (r.end() - r.start()).saturating_add(1) == 1  /  v.len() == 1 *)
+(* r.start() == r.end()  /  v.len() == 1.
+   [fd_is_singleton_pinned] is the pinned definition
+   ((r.end() - r.start()).saturating_add(1) == 1, whose plain subtraction overflowed). *)
 Definition fd_is_singleton (d : fd) : bool :=
+  match d with
+  | Interval lo hi => lo =? hi
+  | Sparse l => match l with [_] => true | _ => false end
+  end.
+Definition fd_is_singleton_pinned (d : fd) : bool :=
   match d with
   | Interval lo hi => sat_add (hi - lo) 1 =? 1
   | Sparse l => match l with [_] => true | _ => false end
@@ -62,8 +69,19 @@ Definition find_first (p : Z -> bool) (l : list Z) : option Z := hd_error (skip_
 Definition nonempty_sparse (l : list Z) : option fd :=
   match l with [] => None | _ => Some (Sparse l) end.
 
-(* copy_before(pred): the elements before the first one satisfying pred *)
+(* copy_before(pred): the elements before the first one satisfying pred.
+   [fd_copy_before_pinned] is the pinned definition (u.saturating_sub(1), which kept
+   isize::MIN when the first element satisfied the predicate). *)
 Definition fd_copy_before (p : Z -> bool) (d : fd) : option fd :=
+  match d with
+  | Interval lo hi =>
+      match find_first p (zrange lo hi) with
+      | Some u => if u =? lo then None else Some (Interval lo (u - 1))
+      | None => Some d
+      end
+  | Sparse l => nonempty_sparse (take_while (fun z => negb (p z)) l)
+  end.
+Definition fd_copy_before_pinned (p : Z -> bool) (d : fd) : option fd :=
   match d with
   | Interval lo hi =>
       match find_first p (zrange lo hi) with
